@@ -213,11 +213,11 @@ where
 
 pub fn c10_cases(thorough: bool) -> Vec<IppCase> {
     let mut v = vec![];
-    let kmax_h = if thorough { 5 } else { 3 };
+    let kmax_h = if thorough { 7 } else { 3 };
     for k in 0..=kmax_h {
         v.push(IppCase { name: format!("honest_k{}_symfactors", k), k, g_factors: "sym".into(), h_factors: "sym".into(), a_pat: "s".into(), b_pat: "s".into(), mode: "honest".into() });
     }
-    for k in 0..=(if thorough { 6 } else { 4 }) {
+    for k in 0..=(if thorough { 7 } else { 4 }) {
         v.push(IppCase { name: format!("adversarial_k{}", k), k, g_factors: "sym".into(), h_factors: "sym".into(), a_pat: "s".into(), b_pat: "s".into(), mode: "adversarial".into() });
     }
     v.push(IppCase { name: "honest_k2_unit_g".into(), k: 2, g_factors: "unit".into(), h_factors: "sym".into(), a_pat: "s".into(), b_pat: "s".into(), mode: "honest".into() });
@@ -227,7 +227,7 @@ pub fn c10_cases(thorough: bool) -> Vec<IppCase> {
     v.push(IppCase { name: "degenerate_k1_R_identity".into(), k: 1, g_factors: "sym".into(), h_factors: "sym".into(), a_pat: "s0".into(), b_pat: "0s".into(), mode: "degenerate".into() });
     if thorough {
         v.push(IppCase { name: "honest_k4_sparse".into(), k: 4, g_factors: "sym".into(), h_factors: "sym".into(), a_pat: "s0s1s".into(), b_pat: "1s0".into(), mode: "honest".into() });
-        v.push(IppCase { name: "honest_k6_unit".into(), k: 6, g_factors: "unit".into(), h_factors: "unit".into(), a_pat: "s".into(), b_pat: "s".into(), mode: "honest".into() });
+        v.push(IppCase { name: "honest_k7_unit".into(), k: 7, g_factors: "unit".into(), h_factors: "unit".into(), a_pat: "s".into(), b_pat: "s".into(), mode: "honest".into() });
     }
     v
 }
